@@ -14,7 +14,7 @@ order, and nothing on the GC path can touch them.
       (GC only *reads* them through add_gc_roots)."""
 import re
 from registry import RuleResult
-from heval import Evaluator, Policy, EvalError, sym, show, cfield, norm_path
+from heval import local_policy, Evaluator, Policy, EvalError, sym, show, cfield, norm_path
 from cfg import Cfg, callee_name
 
 MP = 'module::Module::parse'
@@ -42,7 +42,7 @@ def run(ctx):
 
 
 def c1(F, res):
-    ws = Evaluator(F, NOPOL).run_fn(MP, [sym('wasm'), sym('config')])
+    ws = Evaluator(F, local_policy(F, MP, public_events=True)).run_fn(MP, [sym('wasm'), sym('config')])
     seen = False
     for w in ws:
         if not any(isinstance(v, tuple) and v and v[0] == 'ctor' and v[1] == 'wasmparser::Payload' and v[2] == 'CustomSection'
@@ -99,7 +99,7 @@ def c2(F, res):
 
 
 def c3(F, res):
-    ws = Evaluator(F, NOPOL).run_fn(EW, [sym('self')])
+    ws = Evaluator(F, local_policy(F, EW, public_events=True)).run_fn(EW, [sym('self')])
     n_emit = n_skip = 0
     bad = None
     for w in ws:
